@@ -167,6 +167,10 @@ def rows_exprs():
             "[r.item for r in orders if r.date == date and r.amount == amount]", "[r.item for r in orders if r.amount == amount and r.date == \"2025-01-15\"]",
             "len([r for r in orders if r.item == \"BOOK\"])", "len([r for r in orders if r.item == description])", "[r.amount for r in orders if r.amount == 100]",
             "[r.item for r in orders if r.amount == \"99.75\"]",
+            # inner iterables that are generator expressions / depend on the outer row (nothing may be computed once and reused)
+            "len([p.item for r in orders for p in (q for q in orders if q.amount > 0)])", "[p.item for r in orders for p in (q for q in items if q.amount >= r.amount)]",
+            "[p.item for r in orders if (k := r.amount) > 0 for p in [q for q in orders if q.amount == k]]", "sum(p.amount for r in items for p in (q for q in orders))",
+            "[[q.item for q in orders if q.amount <= r.amount] for r in orders]", "len([1 for a in orders for b in (x for x in orders) for c in (y for y in orders)])",
             "next((amount for amount in orders), 0) != 0 and amount > 100", "any(r.amount > 50 for r in orders) and r_missing == 1 or true",
             "(n := len(orders)) and n + n", 'any(r.item == "lamp" for r in items)', 'next((r.item for r in items), "none")',
             'next((r.item for r in items if r.amount == amount), "none")', "all(r.amount > 100 for r in items)", 'any(r.item == "rug" and r.amount == amount for r in items)',
@@ -195,6 +199,8 @@ def all_expressions(tier):
     for a, b, c in itertools.product(["amount", "0", "99.75", "100", "month"], repeat=3):
         for o1, o2 in (("<", "<"), ("<=", "<"), ("<", "<="), ("==", "=="), (">", ">="), ("!=", "<")):
             exprs.append(f"{a} {o1} {b} {o2} {c}")
+            exprs.append(f"not ({a} {o1} {b} {o2} {c})")
+            exprs.append(f"not {a} {o1} {b} {o2} {c}")
     for s in s1:
         for l in LITS:
             exprs.append(f"{s} == {l}")
